@@ -34,7 +34,7 @@ RULE = ('cases: seeded descriptions with 0-4 systems (arbitrary priorities, freq
         'description signature.')
 ASSUMPTIONS = ['fixtures record what they are handed; the model-level hooks are not handed the model (documented) and are checked through the '
                'most recently created model', 'descriptions are well-formed (unique system ids)']
-FLOORS = {'quick': {'decodes': 2000, 'events_compared': 15000, 'json_decodes': 800, 'dict_decodes': 800, 'repeat_decodes': 300,
+FLOORS = {'quick': {'same_dict_object_decoded_again': 207, 'decodes': 2000, 'events_compared': 15000, 'json_decodes': 800, 'dict_decodes': 800, 'repeat_decodes': 300,
                     'groups_of_size_zero': 200, 'descriptions_without_systems': 100, 'descriptions_without_agents': 100,
                     'hooks_run': 5000, 'agents_created': 3000, 'complete_models': 300, 'spatial_model_decodes': 300, 'big_agent_groups': 2, 'big_descriptions': 2, 'two_module_descriptions': 200, 'nested_decodes_during_decode': 200, 'late_bound_system_classes': 200,
                     'environment_replaced_by_hook': 100, 'reach:Decode.Decoder.decode': 2000, 'reach:Decode.JsonDecoder.open_file': 800},
@@ -236,14 +236,24 @@ def case_desc(ctx, case):
         inner_path = os.path.join(tmp, 'inner.json')
         with open(inner_path, 'w') as f:
             json.dump(inner_desc, f)
-        order = [(k, how) for k in range(n_files) for how in rng.sample(['json', 'dict', 'json'], rng.randint(1, 3))]
+        order = [(k, how) for k in range(n_files) for how in rng.sample(['json', 'dict', 'json', 'samedict', 'samedict'], rng.randint(1, 4))]
         rng.shuffle(order)
         seen = set()
+        live = {}
         for k, how in order:
             d = descs[k]
             if how == 'json':
                 m = decode_and_check(ctx, decode.JsonDecoder(), paths[k], d, 'JsonDecoder', inner=inner_path)
                 ctx.count('json_decodes')
+            elif how == 'samedict':
+                # ONE description dictionary object per model, kept by the caller and decoded again and again (each decode writes the model
+                # and the agent indices into it): every decode is a decode of its own
+                if k not in live:
+                    live[k] = copy.deepcopy(d)
+                else:
+                    ctx.count('same_dict_object_decoded_again')
+                m = decode_and_check(ctx, DictDecoder(), live[k], d, 'dict Decoder, the same description object as in an earlier decode', inner=inner_desc)
+                ctx.count('dict_decodes')
             else:
                 m = decode_and_check(ctx, DictDecoder(), copy.deepcopy(d), d, 'dict Decoder', inner=inner_desc)
                 ctx.count('dict_decodes')
